@@ -21,8 +21,8 @@ from pydoctor import model
 D = T.DIMS
 
 
-def check_reexport(kw, order):
-    sources, exporter, newname = T.gen(**kw)
+def check_reexport(kw, order, accel=False):
+    sources, exporter, newname = T.gen(accel=accel, **kw)
     if exporter is None:
         return True
     sample(shape=kw, order=order, sources={k: v[0] for k, v in sources.items()})
@@ -36,7 +36,7 @@ def check_reexport(kw, order):
     if not imported:
         return True
     new, old = f"{exporter}.{newname}", "pkg._impl.X"
-    ctx = dict(shape=kw, order=order)
+    ctx = dict(shape=kw, order=order, accelerator_import_in_defining_module=accel)
     if not moved:
         if old not in s.allobjects:
             note(why="object listed in its defining module's __all__ was moved away", **ctx)
@@ -119,11 +119,11 @@ NSCHED = 6      # <= 3 sub-modules -> <= 6 schedules
     parts=_parts, timeout=(240, 1800), cls="E", tracing="concrete-after-choice", twin="first",
     code=["pydoctor.astbuilder.ModuleVistor._handleReExport/_getCurrentModuleExports/_importNames/_importAll", "pydoctor.astbuilder.parseAll", "pydoctor.model.Documentable.reparent",
           "pydoctor.model.System.find_object", "pydoctor.model.Documentable.expandName/resolveName", "pydoctor.model.System.process (every schedule)"],
-    bounds={"quick": "re-export form (package plain / renamed / star, sibling plain) x consumer form (none, from defining module, from exporter, both, module alias) x local definition (none/before/after) x kind x nested x origin __all__ (absent / without X / with X) x every reachable schedule (<= 6)",
+    bounds={"quick": "re-export form (package plain / renamed / star, sibling plain) x consumer form (none, from defining module, from exporter, both, module alias) x local definition (none/before/after) x kind x nested x origin __all__ (absent / without X / with X) x the defining module also importing the name (try: from _speedups import X) or not x every reachable schedule (<= 6)",
             "thorough": "same"},
     outside="two re-exporters of one object, cyclic shapes, duplicate definitions (C02)",
 )
-def h_reexport(xkind: int, nested: bool, origin_all: int, si: int) -> bool:
+def h_reexport(xkind: int, nested: bool, origin_all: int, si: int, accel: bool) -> bool:
     """
     pre: 0 <= xkind <= 1 and 0 <= origin_all <= 2 and 0 <= si < NSCHED
     post: _
@@ -132,10 +132,11 @@ def h_reexport(xkind: int, nested: bool, origin_all: int, si: int) -> bool:
     kw = dict(xkind=D["xkind"][pick(xkind, 0, 1)], dup="none", nested=pickb(nested), reexp=D["reexp"][ri],
               origin_all=D["origin_all"][pick(origin_all, 0, 2)], local_def=D["local_def"][li], consumer=D["consumer"][ci], cycle=False)
     si = pick(si, 0, NSCHED - 1)
+    accel = pickb(accel)
     with NoTracing():
         sources, _e, _n = T.gen(**kw)
         scheds = T.schedules(sources)
         if si >= len(scheds):
             return True
-        ok = check_reexport(kw, scheds[si])
+        ok = check_reexport(kw, scheds[si], accel)
     return done(ok)
